@@ -27,9 +27,9 @@ def mk(s):
     if p[0] == "P":
         return T.Position(line=int(p[1]), character=int(p[2]))
     if p[0] == "R":
-        return T.Range(start=T.Position(int(p[1]), int(p[2])), end=T.Position(int(p[3]), int(p[4])))
+        return T.Range(start=T.Position(line=int(p[1]), character=int(p[2])), end=T.Position(line=int(p[3]), character=int(p[4])))
     if p[0] == "L":
-        return T.Location(uri=p[1], range=T.Range(start=T.Position(int(p[2]), int(p[3])), end=T.Position(int(p[4]), int(p[5]))))
+        return T.Location(uri=p[1], range=T.Range(start=T.Position(line=int(p[2]), character=int(p[3])), end=T.Position(line=int(p[4]), character=int(p[5]))))
     if p[0] == "O":
         return unrelated(int(p[1]))
     raise ValueError(s)
